@@ -76,6 +76,25 @@ var tString = types.Typ[types.String]
 // mathInt is the type of contract-level integers (unbounded).
 var tMath = types.Typ[types.UntypedInt]
 
+// typeArgName: a type given as an identifier / selector, or as a string literal ("*pkg.T", "[]T").
+func typeArgName(n *CNode) string {
+	if n.Kind == "str" {
+		return n.Name
+	}
+	return n.String()
+}
+
+// tryResolveType: resolveType without failing the contract (nil when the name is not a type).
+func (e *Env) tryResolveType(name string) (T types.Type) {
+	defer func() {
+		if r := recover(); r != nil {
+			T = nil
+		}
+	}()
+	T, _ = e.resolveType(name)
+	return T
+}
+
 func (e *Env) resolveType(name string) (types.Type, string) {
 	switch name {
 	case "int", "int64", "int32", "uint64", "uint32", "uint", "uint8", "byte", "int8", "int16", "uint16":
@@ -94,6 +113,22 @@ func (e *Env) resolveType(name string) (types.Type, string) {
 	case "struct{}":
 		T := types.NewStruct(nil, nil)
 		return T, e.g.sortOf(T)
+	}
+	if strings.HasPrefix(name, "map[") {
+		depth := 0
+		for i := 3; i < len(name); i++ {
+			if name[i] == '[' {
+				depth++
+			} else if name[i] == ']' {
+				depth--
+				if depth == 0 {
+					K, _ := e.resolveType(name[4:i])
+					V, _ := e.resolveType(name[i+1:])
+					mt := types.NewMap(K, V)
+					return mt, e.g.sortOf(mt)
+				}
+			}
+		}
 	}
 	if strings.HasPrefix(name, "[]") {
 		T, _ := e.resolveType(name[2:])
@@ -307,6 +342,17 @@ func (e *Env) expr(n *CNode) Val {
 			bs = append(bs, fmt.Sprintf("(%s %s)", nm, srt))
 		}
 		body := s.expr(n.Args[0])
+		if len(n.Trigs) > 0 {
+			pats := ""
+			for _, grp := range n.Trigs {
+				var ts []string
+				for _, t := range grp {
+					ts = append(ts, g.atomize(s.expr(t).t))
+				}
+				pats += " :pattern (" + strings.Join(ts, " ") + ")"
+			}
+			return Val{t: fmt.Sprintf("(%s (%s) (! %s%s))", n.Op, strings.Join(bs, " "), body.t, pats), ty: tBool}
+		}
 		return Val{t: fmt.Sprintf("(%s (%s) %s)", n.Op, strings.Join(bs, " "), body.t), ty: tBool}
 	case "field":
 		return e.field(n)
@@ -542,7 +588,7 @@ func (e *Env) index(n *CNode) Val {
 	switch u := b.ty.Underlying().(type) {
 	case *types.Slice:
 		k := g.arrKey(u.Elem())
-		return Val{t: fmt.Sprintf("(select (select %s (sarr %s)) (+ (soff %s) %s))", g.get(e.state, k), b.t, b.t, i.t), ty: u.Elem()}
+		return Val{t: fmt.Sprintf("(select (select %s (sarr %s)) (|ix| (soff %s) %s))", g.get(e.state, k), b.t, b.t, i.t), ty: u.Elem()}
 	case *types.Map:
 		_, kv := g.mapKeys(u)
 		kd, _ := g.mapKeys(u)
@@ -579,8 +625,7 @@ func (e *Env) call(n *CNode) Val {
 			return Val{t: fmt.Sprintf("(str.len %s)", v.t), ty: tMath}
 		case *types.Map:
 			kd, _ := g.mapKeys(u)
-			fn := "|card!" + sanitize(g.sortOf(u.Key())) + "|"
-			g.declareFun(fn, "((Array "+g.sortOf(u.Key())+" Bool)) Int")
+			fn := g.cardFn(g.sortOf(u.Key()))
 			return Val{t: fmt.Sprintf("(ite (= %s 0) 0 (%s (select %s %s)))", v.t, fn, g.get(e.state, kd), v.t), ty: tMath}
 		case *types.Array:
 			return Val{t: fmt.Sprint(u.Len()), ty: tMath}
@@ -748,13 +793,13 @@ func (e *Env) call(n *CNode) Val {
 		var keys []string
 		switch n.Name {
 		case "preservedCells":
-			T, _ := e.resolveType(n.Args[0].String())
+			T, _ := e.resolveType(typeArgName(n.Args[0]))
 			keys = []string{g.cellKey(T)}
 		case "preservedArrays":
-			T, _ := e.resolveType(n.Args[0].String())
+			T, _ := e.resolveType(typeArgName(n.Args[0]))
 			keys = []string{g.arrKey(T)}
 		case "preservedStruct":
-			T, _ := e.resolveType(n.Args[0].String())
+			T, _ := e.resolveType(typeArgName(n.Args[0]))
 			st, ok := T.Underlying().(*types.Struct)
 			if !ok {
 				cxFail("preservedStruct: not a struct type")
@@ -763,8 +808,21 @@ func (e *Env) call(n *CNode) Val {
 				keys = append(keys, g.fieldKey(T, i))
 			}
 		case "preservedMaps":
-			K, _ := e.resolveType(n.Args[0].String())
-			V, _ := e.resolveType(n.Args[1].String())
+			var ks, vs string
+			if len(n.Args) == 1 && n.Args[0].Kind == "str" {
+				// preservedMaps("K;V"): the string form allows composite key/value types
+				i := strings.Index(n.Args[0].Name, ";")
+				if i < 0 {
+					cxFail("preservedMaps(\"K;V\")")
+				}
+				ks, vs = strings.TrimSpace(n.Args[0].Name[:i]), strings.TrimSpace(n.Args[0].Name[i+1:])
+			} else if len(n.Args) == 2 {
+				ks, vs = n.Args[0].String(), n.Args[1].String()
+			} else {
+				cxFail("preservedMaps(K, V) or preservedMaps(\"K;V\")")
+			}
+			K, _ := e.resolveType(ks)
+			V, _ := e.resolveType(vs)
 			kd, kv := g.mapKeys(types.NewMap(K, V))
 			keys = []string{kd, kv}
 		default:
@@ -813,6 +871,21 @@ func (e *Env) call(n *CNode) Val {
 			}
 		}
 		cxFail("local(%s): no such memory-resident local", nm)
+	case "msgBeginTs", "msgEndTs", "msgPosition", "msgType", "msgHashKeys", "msgGet":
+		// accessors of a message interface value (msgmodel.go); meaningful for msgKnown(m) messages
+		v := e.expr(n.Args[0])
+		m := map[string]string{"msgBeginTs": "BeginTs", "msgEndTs": "EndTs", "msgPosition": "Position", "msgType": "Type", "msgHashKeys": "HashKeys"}[n.Name]
+		if n.Name == "msgGet" {
+			m = n.Args[1].Name
+		}
+		t, rt, ok := g.msgGetterTerm(e.state, v.t, m)
+		if !ok {
+			cxFail("%s: no message type with this accessor", n.Name)
+		}
+		return Val{t: t, ty: rt}
+	case "msgKnown":
+		v := e.expr(n.Args[0])
+		return Val{t: g.msgKnownTerm(v.t), ty: tBool}
 	case "as":
 		// as(x, "*pkg.T"): reinterpret the reference x as a pointer of the given type (ghost references)
 		v := e.expr(n.Args[0])
@@ -903,6 +976,9 @@ func (e *Env) call(n *CNode) Val {
 		}
 		r := uf.ret
 		r.t = "(" + uf.smt + " " + strings.Join(ts, " ") + ")"
+		if len(ts) == 0 {
+			r.t = uf.smt
+		}
 		return r
 	}
 	cxFail("unknown function %s in contract", n.Name)
